@@ -33,6 +33,11 @@ RECIPES = {
 
 # larger recipes used by single checks only (not part of the family loops)
 EXTRA = {
+    # more writers than one decimal digit counts (positions 10, 11 next to
+    # 2..9), then a second multi-writer call
+    "multi12": ("fb", 2, [("multi", [("train", 1), ("test", 1)] * 3 +
+                           [("train", 2)] * 6),
+                          ("multi", [("train", 1)] * 11)]),
     "many64": ("fb", 1, [("root", [("train", 64)])]),
     "many120": ("fb", 1, [("root", [("train", 120)])]),
     "many120npz": ("npz", 1, [("root", [("train", 120)])]),
